@@ -168,7 +168,7 @@ func Walk(srv *drv.Server, cfg CfgRec, rng *rand.Rand, maxSteps int) ([]TraceEve
 		if cmd.C == "MAIL" && cmd.A == "panic" && (proj == nil || !proj.Helo || proj.Bdat) {
 			cmd.A = "ok" // the specification has no panic label there (Mail is not reached)
 		}
-		if cmd.C == "STARTTLS" && cmd.A == "inject" && (!cfg.TlsAvail || proj != nil && proj.Tls) {
+		if cmd.C == "STARTTLS" && cmd.A == "inject" && (!cfg.TlsAvail || cfg.ImplicitTLS || proj != nil && proj.Tls) {
 			cmd.A = "ok" // no upgrade will happen: injected lines would be ordinary commands
 		}
 		closingGuess := cmd.C == "QUIT" || cmd.C == "LONG" || (cmd.C == "MAIL" && cmd.A == "panic") ||
